@@ -121,6 +121,8 @@ type scionWorld struct {
 	seen []*scionPkt
 	// hooks for worlds
 	onRouter func(p *scionPkt) (drop bool, replace []byte)
+	// extraOut, set by onRouter, is sent to the same destination ahead of the packet itself
+	extraOut [][]byte
 }
 
 func newSCIONWorld(r *simcore.Run, srvOff time.Duration, nrouters int) *scionWorld {
@@ -290,6 +292,13 @@ func (w *scionWorld) startRouter(i int, c *simnet.UDPConn) {
 				}
 			default:
 				continue
+			}
+			extra := w.extraOut
+			w.extraOut = nil
+			for _, x := range extra {
+				if _, err := c.WriteTo(x, dst); err != nil {
+					return
+				}
 			}
 			if _, err := c.WriteTo(out, dst); err != nil {
 				return
